@@ -17,6 +17,23 @@ class Blocked(Exception):
     pass
 
 
+class Spin(Exception):
+    """set_keyspace_async would busy-wait (connection at capacity)"""
+    pass
+
+
+class ConnTime(object):
+    """cassandra.connection.time while the harness drives set_keyspace_async: sleeping = spinning = not enabled"""
+    def __init__(self, real):
+        self.real = real
+
+    def sleep(self, t):
+        raise Spin()
+
+    def time(self):
+        return self.real.time()
+
+
 class FakeTime(object):
     """cassandra.pool.time: every reading is one unit later than the previous one"""
     def __init__(self):
@@ -114,7 +131,7 @@ def make_conn_class(h):
 
         def close(self):
             caller = sys._getframe(1).f_code.co_name
-            if h.armed and h.depth == 0 and caller == 'shutdown' and h.pool._connection is self:
+            if h.armed and h.depth == 0 and caller == 'shutdown' and getattr(h.pool, '_connection', None) is self:
                 h.hook('closemain')     # shutdown(): middle, unlocked region
             if caller in ('_replace', 'return_connection') and self.lock.held == 0 and self.cid is not None \
                     and not self.is_closed and not h.pool.is_shutdown:
@@ -125,6 +142,26 @@ def make_conn_class(h):
 
         def push(self, data):
             self.sent.append(data)
+            if getattr(h, 'hb_active', False) and self._requests:      # the node answers the heartbeat at once
+                from cassandra.protocol import SupportedMessage
+                rid, (cb, _, _) = self._requests.popitem()
+                self.request_ids.append(rid)
+                cb(SupportedMessage(['3.0.0'], {}))
+
+        def send_msg(self, msg, request_id, cb, *a, **kw):
+            if sys._getframe(1).f_code.co_name == '_query':
+                h.inquery.append((self.cid, request_id))       # a borrowed, not yet returned stream
+                if h.query_mine is not None:
+                    h.query_mine.append((self.cid, request_id))
+                if h.armed and h.depth == 0:
+                    h.hook('send')
+                w = self._socket_writable
+                self._socket_writable = False        # the write buffer is full: send_msg refuses with ConnectionBusy
+                try:
+                    return Connection.send_msg(self, msg, request_id, cb, *a, **kw)
+                finally:
+                    self._socket_writable = w
+            return Connection.send_msg(self, msg, request_id, cb, *a, **kw)
 
         @property
         def orphaned_threshold_reached(self):
@@ -226,6 +263,7 @@ class Harness(object):
         self.problems = []                   # (key, what)
         self.info = {}                       # per cid: facts for classifying a leak
         self.close_log, self.close_shut, self.replaced = [], {}, set()
+        self.inquery, self.task_errors, self.query_mine = [], [], None
         self.ConnClass = make_conn_class(self)
         self.session = FakeSession(self)
         self.host = FakeHost()
@@ -239,6 +277,12 @@ class Harness(object):
     def open_conn(self, released_cb):
         if not self.factory_ok:
             from cassandra.connection import ConnectionException
+            from cassandra import OperationTimedOut, AuthenticationFailed
+            k = getattr(self, 'factory_kind', 0)
+            if k == 2:
+                raise OperationTimedOut('scripted connect timeout')       # what Connection.factory raises on a connect timeout
+            if k == 3:
+                raise AuthenticationFailed('scripted authentication failure')
             raise ConnectionException('scripted connect failure')
         c = self.ConnClass(on_orphaned_stream_released=released_cb)
         c.cid = len(self.conns)
@@ -249,7 +293,7 @@ class Harness(object):
     def on_close(self, c, caller):
         if c.cid is None:
             return
-        live = len([1 for s in self.streams if s[0] == c.cid])
+        live = len([1 for s in self.streams + self.inquery if s[0] == c.cid])
         self.close_log.append((c.cid, live, caller, bool(self.pool.is_shutdown or c._defunct)))
 
     # ------------------------------------------------------------ windows that exist only if a lock is missing
@@ -263,7 +307,7 @@ class Harness(object):
         self.P.time = FakeTime()
         pool._get_connection = lambda: conn
         try:
-            got, rid = pool.borrow_connection(timeout=0)
+            got, rid = self.P.HostConnection.borrow_connection(pool, timeout=0)
             self.streams.append((got.cid, rid))
             self.problem('HostConnection.%s.close-not-under-connection-lock' % caller,
                          '%s decided to close connection %d (idle: in_flight == #orphans) without holding that connection\'s lock; '
@@ -337,7 +381,7 @@ class Harness(object):
                 for m in (self.replay_ints[slot] if slot < len(self.replay_ints) else []):
                     self.cur_ints[slot].append(list(m))
                     self.exec_mop(m)
-            elif self.chooser is not None:
+            elif self.chooser is not None and not (self.cur_kind == 'heartbeat' and slot == 0):
                 for _ in range(self.chooser(self, slot, kind)):
                     m = self.rng.choice(enabled_mops(self, self.rng, nested=True))
                     self.cur_ints[slot].append(list(m))
@@ -352,12 +396,18 @@ class Harness(object):
         """top-level operation; ints given => replay them, else ask the chooser at each hook"""
         self.cur_ints, self.slot = [], 0
         self.replay_ints = ints
+        self.cur_kind = mop[0]
         self.armed = True
         try:
             self.exec_mop(mop)
         finally:
             self.armed = False
         self.history.append([list(mop), self.cur_ints])
+        if self.pool._is_replacing and not self.pool.is_shutdown and not self.queue:
+            self.problem('HostConnection._replace.task-lost',
+                         'the pool is open and _is_replacing is set but no _replace task is queued or running (a task ended with %s): '
+                         'the overloaded connection is never replaced nor closed' % (self.task_errors[-1:] or 'no exception'),
+                         'C13_replacement_not_abandoned')
         for cid in sorted(self.replaced):
             if not self.conns[cid].is_closed and not any(s[0] == cid for s in self.streams):
                 self.problem('HostConnection.replaced-connection-not-closed',
@@ -375,7 +425,7 @@ class Harness(object):
             if kind == 'borrow':
                 was_shutdown = self.pool.is_shutdown
                 try:
-                    conn, rid = self.pool.borrow_connection(timeout=mop[1])
+                    conn, rid = self.P.HostConnection.borrow_connection(self.pool, timeout=mop[1])
                     self.streams.append((conn.cid, rid))
                     res = [RES['conn'], conn.cid]
                     if was_shutdown:
@@ -440,17 +490,27 @@ class Harness(object):
             elif kind == 'task':
                 if self.queue:
                     fn, args = self.queue.pop(0)
-                    self.factory_ok = bool(mop[1])
+                    self.factory_ok = (mop[1] == 1 or mop[1] is True)
                     if self.nested:
                         self.nchecking = (fn, args)
                     else:
                         self.checking = (fn, args)
                     was = self.pool._is_replacing
-                    fn(*args)
+                    self.factory_kind = mop[1]
+                    try:
+                        fn(*args)
+                    except Exception as e:       # a ThreadPoolExecutor keeps the exception in the future nobody reads
+                        self.task_errors.append(repr(e))
                     if was and not self.pool._is_replacing and args[0]._thr:
                         self.replaced.add(args[0].cid)
                     self.checking = self.nchecking = None
                     self.factory_ok = True
+            elif kind == 'qbusy':
+                res = self.exec_query_busy(mop)
+            elif kind == 'setks':
+                res = self.exec_setks(mop)
+            elif kind == 'heartbeat':
+                res = self.exec_heartbeat(mop)
             elif kind == 'shutdown':
                 self.mark_shutdown_start()
                 self.pool.shutdown()
@@ -464,6 +524,96 @@ class Harness(object):
             P.time = old_time
         self.items.append(self.snap())
         self.items.append(res if isinstance(res, list) else [res])
+
+    def exec_query_busy(self, mop):
+        """the REAL ResponseFuture._query against this pool; every connection refuses the write (socket not writable)"""
+        import cassandra.cluster as C
+        from cassandra.protocol import QueryMessage, ProtocolHandler
+        fut = C.ResponseFuture.__new__(C.ResponseFuture)
+        fut.session = self.session
+        fut.message = QueryMessage('SELECT 1', 1)
+        fut.prepared_statement = None
+        fut._protocol_handler = ProtocolHandler
+        fut._errors, fut.attempted_hosts, fut._metrics = {}, [], None
+        fut._current_host = fut._connection = None
+        self.session._pools = {self.host: self.pool}
+        self.down_oracle = bool(mop[2])
+        real_borrow = self.P.HostConnection.borrow_connection.__get__(self.pool)
+        real_return = self.P.HostConnection.return_connection.__get__(self.pool)
+        mine = []
+        prev = (self.pool.__dict__.get('borrow_connection'), self.pool.__dict__.get('return_connection'))
+        self.pool.borrow_connection = lambda timeout: real_borrow(mop[1])     # _query passes a wall-clock timeout; the history fixes the retries
+
+        def returning(connection, stream_was_orphaned=False):     # the stream handed back is no longer outstanding
+            for e in (self.inquery if sys._getframe(1).f_code.co_name == '_query' else []):
+                if e[0] == connection.cid and e in mine:
+                    self.inquery.remove(e)
+                    break
+            return real_return(connection, stream_was_orphaned)
+        self.pool.return_connection = returning
+        outer_mine = self.query_mine
+        self.query_mine = mine
+        try:
+            rid = fut._query(self.host)
+        finally:
+            self.query_mine = outer_mine
+            for name, old in zip(('borrow_connection', 'return_connection'), prev):     # a nested _query restores the outer one's wrappers
+                if old is None:
+                    self.pool.__dict__.pop(name, None)
+                else:
+                    self.pool.__dict__[name] = old
+            for e in mine:
+                if e in self.inquery:
+                    self.inquery.remove(e)
+        if rid is not None:
+            self.items.append([998])
+        return RES['none']
+
+    def exec_heartbeat(self, mop):
+        """one pass of the REAL ConnectionHeartbeat.run over this pool (the thread object is built without starting it)"""
+        import cassandra.connection as CN
+        self.down_oracle = bool(mop[1])
+        hb = CN.ConnectionHeartbeat.__new__(CN.ConnectionHeartbeat)
+        hb._interval, hb._timeout = 0, 5
+        hb._get_connection_holders = lambda: [self.pool]
+
+        class OnePass(object):
+            waits, stop = 0, False
+
+            def wait(self, t=None):
+                self.waits += 1
+                if self.waits >= 2:
+                    self.stop = True
+
+            def is_set(self):
+                return self.stop
+        hb._shutdown_event = OnePass()
+        for c in self.conns:
+            c.msg_received = False
+        outer = getattr(self, 'hb_active', False)
+        self.hb_active = True
+        try:
+            hb.run()
+        finally:
+            self.hb_active = outer
+        return RES['none']
+
+    def exec_setks(self, mop):
+        """the REAL HostConnection._set_keyspace_for_all_conns for the keyspace the connection already has"""
+        import cassandra.connection as CN
+        self.down_oracle = bool(mop[1])
+        calls = []
+        old = CN.time
+        CN.time = ConnTime(old)
+        try:
+            self.pool._set_keyspace_for_all_conns(self.pool._keyspace, lambda p, errs: calls.append(errs))
+        except Spin:
+            return RES['wait']
+        finally:
+            CN.time = old
+        if len(calls) != 1 or calls[0]:
+            self.problem('HostConnection._set_keyspace_for_all_conns.callback', 'callback calls %r' % (calls,), 'harness')
+        return RES['none']
 
     def quiet(self, fn):
         a = self.armed
@@ -519,7 +669,13 @@ def mop_coq(m):
     if k == 'defunct':
         return '(MDefunct %d%%nat)' % m[1]
     if k == 'task':
-        return '(MTask %s)' % b(m[1])
+        return '(MTask %s)' % b(m[1] == 1 or m[1] is True)
+    if k == 'qbusy':
+        return '(MQueryBusy %d%%nat %s)' % (m[1], b(m[2]))
+    if k == 'setks':
+        return '(MSetKs %s)' % b(m[1])
+    if k == 'heartbeat':
+        return '(MHeartbeat %s)' % b(m[1])
     if k == 'shutdown':
         return 'MShutdown'
     if k == 'setsoe':
@@ -563,7 +719,12 @@ def enabled_mops(h, rng, nested=False):
         if not (c.is_closed or c._defunct):
             w(1, ['defunct', c.cid])
     if h.queue and h.checking is None:
-        w(8, ['task', rng.random() < 0.85])
+        w(8, ['task', 1 if rng.random() < 0.8 else rng.choice([0, 0, 2, 3])])
+    w(2, ['qbusy', rng.choice([0, 1, 2]), rng.random() < 0.25])
+    if p._connection is not None and not p.is_shutdown and p._connection.in_flight < p._connection.max_request_id:
+        w(2, ['setks', rng.random() < 0.25])
+        if not (p._connection.is_closed or p._connection._defunct) and not nested:
+            w(2, ['heartbeat', rng.random() < 0.25])
     w(1, ['shutdown'])
     if not p.shutdown_on_error and rng.random() < 0.3:
         w(1, ['setsoe'])
